@@ -112,6 +112,18 @@ type VerifServer struct {
 // VerifNewServer: apply receives the encoded command of every raftApply an endpoint makes and returns
 // the FSM response; nil makes writes a harness error (read-only use).
 func VerifNewServer(f *fsm.FSM, apply func(buf []byte) interface{}) (*VerifServer, error) {
+	return verifNewServer(f, apply, false)
+}
+
+// VerifNewServerACL is VerifNewServer with ACLs enabled (default deny): tokens, roles and policies are
+// resolved by the server's own resolver backend from the FSM's state, through the real caches.
+func VerifNewServerACL(f *fsm.FSM, apply func(buf []byte) interface{}) (*VerifServer, error) {
+	return verifNewServer(f, apply, true)
+}
+
+func (v *VerifServer) ACL() *ACL { return &ACL{srv: v.Srv, logger: v.Srv.logger} }
+
+func verifNewServer(f *fsm.FSM, apply func(buf []byte) interface{}, acls bool) (*VerifServer, error) {
 	vr, err := verifAcquireRaft()
 	if err != nil {
 		return nil, err
@@ -133,10 +145,19 @@ func VerifNewServer(f *fsm.FSM, apply func(buf []byte) interface{}) (*VerifServe
 		leaveCh:    make(chan struct{}),
 		shutdownCh: make(chan struct{}),
 	}
+	settings := ACLResolverSettings{ACLsEnabled: false, Datacenter: "dc1", NodeName: "node1", ACLDownPolicy: "extend-cache", ACLDefaultPolicy: "allow"}
+	caches := &structs.ACLCachesConfig{}
+	if acls {
+		cfg.ACLsEnabled = true
+		settings = ACLResolverSettings{ACLsEnabled: true, Datacenter: "dc1", NodeName: "node1", ACLDownPolicy: "extend-cache", ACLDefaultPolicy: "deny",
+			ACLPolicyTTL: 30 * time.Second, ACLTokenTTL: 30 * time.Second, ACLRoleTTL: 30 * time.Second}
+		cfg.ACLResolverSettings = settings
+		caches = &structs.ACLCachesConfig{Identities: 64, Policies: 64, ParsedPolicies: 64, Authorizers: 64, Roles: 64}
+	}
 	res, err := NewACLResolver(&ACLResolverConfig{
-		Config:      ACLResolverSettings{ACLsEnabled: false, Datacenter: "dc1", NodeName: "node1", ACLDownPolicy: "extend-cache", ACLDefaultPolicy: "allow"},
+		Config:      settings,
 		Logger:      logger,
-		CacheConfig: &structs.ACLCachesConfig{},
+		CacheConfig: caches,
 		Backend:     &serverACLResolverBackend{Server: srv},
 		Tokens:      new(token.Store),
 	})
